@@ -338,6 +338,64 @@ func main() {
 	for _, m := range []string{"queueResolvedTarget", "queueTargetAsync", "addPendingBuild", "taskDone", "Stop", "asyncError", "checkForCycles"} {
 		out.Def("sk_"+m, "String", xlib.LeanStr(skeleton(st, "BuildState."+m)))
 	}
+	// the dependency wait loop of queueTargetAsync, statement by statement: which state tests come before and
+	// after WaitForBuild and what they do (the model's wait step is instantiated from this)
+	{
+		fn := st.Func("BuildState.queueTargetAsync") // already role-renamed by skeleton()
+		s := &sk{f: st}
+		var loop *ast.RangeStmt
+		ast.Inspect(fn.Body, func(n ast.Node) bool {
+			if rs, ok := n.(*ast.RangeStmt); ok && strings.HasSuffix(s.src(rs.X), ".Dependencies()") {
+				loop = rs
+			}
+			return true
+		})
+		if loop == nil {
+			xlib.Unreadable("queueTargetAsync: no loop over target.Dependencies()")
+		}
+		elem := ""
+		if id, ok := loop.Value.(*ast.Ident); ok {
+			elem = id.Name
+		}
+		var items []string
+		for _, b := range loop.Body.List {
+			txt := strings.ReplaceAll(s.src(b), elem+".", "dep.")
+			switch t := b.(type) {
+			case *ast.ExprStmt:
+				if strings.Contains(txt, "WaitForBuild(") {
+					items = append(items, "wait")
+					continue
+				}
+			case *ast.IfStmt:
+				cond := strings.ReplaceAll(s.src(t.Cond), elem+".", "dep.")
+				body := s.src(t.Body)
+				switch {
+				case strings.Contains(body, "continue") && !strings.Contains(body, "SetState"):
+					items = append(items, "if "+cond+" continue")
+					continue
+				case strings.Contains(body, "SetState(DependencyFailed)") && strings.Contains(body, "FinishBuild()") && strings.Contains(body, "return"):
+					items = append(items, "if "+cond+" fail")
+					continue
+				}
+			}
+			if words.MatchString(s.srcSp(b)) {
+				items = append(items, "other "+txt)
+			}
+		}
+		out.Def("waitLoop", "List String", xlib.LeanStrList(items))
+		// the state a dependency may be in to be passed over without waiting (absent in the pinned code)
+		skip := "none"
+		for _, it := range items {
+			if it == "wait" {
+				break
+			}
+			if strings.HasPrefix(it, "if dep.State()>=") && strings.HasSuffix(it, " continue") {
+				skip = "some " + xlib.LeanStr(strings.TrimSuffix(strings.TrimPrefix(it, "if dep.State()>="), " continue"))
+				break
+			}
+		}
+		out.Def("waitSkip", "Option String", skip)
+	}
 	// parse phase (C05): who waits for a package and who releases the waiters
 	for _, m := range []string{"addPendingParse", "LogParseResult", "SyncParsePackage", "WaitForPackage"} {
 		out.Def("sk_"+m, "String", xlib.LeanStr(skeleton(st, "BuildState."+m)))
